@@ -37,11 +37,14 @@ def finding(fid, props, what, witnesses, switch=None, pinned_by=None, status="op
     LANG_FINDINGS.append(f)
 
 finding("C01-unary-operand-reach", ["C01"],
-        "a unary minus or NOT takes the whole rest of the expression as its operand: '-B AND C' is emitted as '- LAND(B, C)', 'NOT B AND C' as 'LNOT(LAND(B, C))', 'IF NOT A=3 AND B=2' as 'NOT(A = 3.0 AND B = 2.0)'",
+        "a unary minus or NOT takes the whole rest of the expression as its operand: '-B AND C' is emitted as '- LAND(B, C)', 'NOT B AND C' as 'LNOT(LAND(B, C))', 'IF NOT A=3 AND B=2' as 'NOT(A = 3.0 AND B = 2.0)', 'IF -B=-5' as 'IF - B = - 5.0 <> 0.0' "
+        "(harmless where the rest is emitted as flat infix text that BASIC09 regroups by itself: '-B+C', 'A*-B+C', 'X=-B=C')",
         {"C01": [P(INIT, [30, [LET(V("X"), B("AND", ["neg", V("B")], V("C")))]], [40, [PR(V("X"))]]),
                  P(INIT, [30, [LET(V("X"), B("AND", ["not", V("B")], V("C")))]], [40, [PR(V("X"))]], source_override="10 A=3:B=5:C=6:I=2\n30 X=NOT B AND C\n40 PRINT X"),
                  P(INIT, [30, [IF(["band", ["bnot", CMP("=", V("A"), N(3))], CMP("=", V("B"), N(2))], [LET(V("X"), N(1))])]], [40, [PR(V("X"))]],
-                   source_override="10 A=3:B=5:C=6:I=2\n30 IF NOT A=3 AND B=2 THEN X=1\n40 PRINT X")]},
+                   source_override="10 A=3:B=5:C=6:I=2\n30 IF NOT A=3 AND B=2 THEN X=1\n40 PRINT X"),
+                 P(INIT, [30, [IF(CMP("=", ["neg", V("B")], ["neg", N(5)]), [LET(V("X"), N(1))])]], [40, [PR(V("X"))]],
+                   source_override="10 A=3:B=5:C=6:I=2\n30 IF -B=-5 THEN X=1\n40 PRINT X")]},
         switch="paren_unary")
 finding("C01-negated-power", ["C01"],
         "'-B^2' is emitted flat ('- B ^ 2.0'), which BASIC09 groups as (-B)^2 because its unary minus binds tighter than ^; '-2^2' is read as (-2)^2 by the tool itself (the literal pattern swallows the sign); Color BASIC gives -(B^2)",
